@@ -33,6 +33,10 @@ type Action struct {
 	// ResetNext: once this reply is out, the next byte the client writes meets a connection
 	// reset (the reply itself still arrives)
 	ResetNext bool `json:"resetNext,omitempty"`
+	// Bare: the first line of the reply is nothing but the enhanced status code (Enh must be
+	// set): "550 5.1.1", or "451-4.7.1" followed by the remaining lines of Text. A single-line
+	// Text is dropped altogether.
+	Bare bool `json:"bare,omitempty"`
 }
 
 // Rule attaches an Action to the Nth occurrence (1-based; 0 = every) of a command on a connection.
@@ -436,7 +440,18 @@ func (s *Session) reply(cmdSeq int, verb string, nth int, act Action, defCode in
 		fmt.Fprintf(&wire, "%d %s\r\n", code, text)
 	} else {
 		lines := strings.Split(text, "\n")
+		if act.Bare && enh != "" && len(lines) == 1 {
+			lines[0] = ""
+		}
 		for i, l := range lines {
+			if act.Bare && enh != "" && i == 0 {
+				sep := " "
+				if len(lines) > 1 {
+					sep = "-"
+				}
+				fmt.Fprintf(&wire, "%d%s%s\r\n", code, sep, enh)
+				continue
+			}
 			sep := " "
 			if i < len(lines)-1 {
 				sep = "-"
@@ -489,6 +504,9 @@ func (s *Session) reply(cmdSeq int, verb string, nth int, act Action, defCode in
 	if s.stallAfterWrite > 0 {
 		s.pipe.StallS2CFrom(s.pipe.S2CLen() + s.stallAfterWrite - 1)
 		s.stallAfterWrite = 0
+	}
+	if act.Bare && enh != "" && !strings.Contains(text, "\n") {
+		token, full = "", "" // nothing but the codes went out
 	}
 	e := Event{Kind: "reply", Verb: verb, Nth: nth, ReplyTo: cmdSeq, Code: code, Enh: enh, Text: full, Token: token, Action: kind, EndOff: s.pipe.S2CLen()}
 	e.Conn, e.Step, e.TimeNs, e.TLS, e.State, e.Seq = s.ID, s.srv.K.Steps, s.srv.K.Now(), s.TLS, s.state(), seq
